@@ -51,9 +51,9 @@ def action_switch(fn):
     sw = max(sws, key=lambda x: len(x.cases)) if sws else None
     return sw if sw is not None and len(sw.cases) >= 3 else None
 
-def eob_constant(sc, fn):
-    """YY_END_OF_BUFFER: the constant added to yystart() where yylex forms the EOF action number; returns (constant, store)"""
-    res = ir.Resolver(fn)
+def eof_action_stores(sc, fn):
+    """stores into a local of  <constant> + yystart() [+ 1]  - where yylex forms an EOF action number: list of (constant, store)"""
+    res = ir.Resolver(fn); out = []
     for x in fn.ins:
         if x.op != 'store': continue
         d = fn.def_of(x.ops[1])
@@ -61,8 +61,13 @@ def eob_constant(sc, fn):
         sl = flow.value_slice(fn, x.ops[0])
         if not any((y.op == 'load' and sc.is_var(res.loc(y.ops[0]), 'yy_start')) or (y.op in ('call', 'invoke') and sc.callee(y) == 'yystart') for y in sl): continue
         cs_ = [o[1] for y in sl if y.op == 'add' for o in y.ops if o[0] == 'int' and o[1] > 1]
-        if cs_: return cs_[0], x
-    return None, None
+        if cs_: out.append((cs_[0], x))
+    return out
+
+def eob_constant(sc, fn):
+    """YY_END_OF_BUFFER: the constant added to yystart() where yylex forms the EOF action number; returns (constant, first store)"""
+    l = eof_action_stores(sc, fn)
+    return l[0] if l else (None, None)
 
 # ---------------------------------------------------------------- R1
 
